@@ -2,8 +2,11 @@ package props
 
 import (
 	"bytes"
+	"time"
 
 	"github.com/philpearl/avro"
 )
+
+type avrotimeTime = time.Time
 
 func bytesReader(b []byte) avro.Reader { return bytes.NewReader(b) }
